@@ -1,7 +1,10 @@
 (* Proofs about Model/Reconnect.v: the run of one request as a function of its outcome
-   stream, and invariants of the poll-granular model of several requests sharing the
-   published connection state. *)
-From TR Require Import Lib.Base Model.Reconnect.
+   stream ([reconnect_run]), invariants of the poll-granular step machine of several requests
+   sharing the published connection state ([step], what run_script executes), progress of one
+   poll under the cooperative budget, the state clause for one request, and the refinement
+   between the two layers: what the step machine does for a request that has returned is
+   exactly a run of [reconnect_run]. *)
+From TR Require Import Lib.Base Lib.TokioTime Model.Reconnect.
 
 Lemma app_eq_len {A} (l1 l1' l2 l2' : list A) :
   length l1 = length l1' -> l1 ++ l2 = l1' ++ l2' -> l1 = l1' /\ l2 = l2'.
@@ -137,7 +140,7 @@ Section ReconnectProofs.
       (exists cl rest, calls r = cl :: rest /\ c_start cl = t) /\
       (forall l1 c1 c2 l2, calls r = l1 ++ c1 :: c2 :: l2 ->
          exists d, policy c (c_idx c2) = Some d /\
-         c_start c2 = c_end c1 + Z.max 0 d + Z.max 0 (fst (ready (c_idx c2)))) /\
+         c_start c2 = ceil_ms (c_end c1 + Z.max 0 d) + Z.max 0 (fst (ready (c_idx c2)))) /\
       (forall k, (a <= k < a + n - 1)%nat -> stopb k = false) /\
       (forall x, result r = Some x -> stopb (a + n - 1)%nat = true /\ last_spec (a + n - 1)%nat x) /\
       (result r = None -> stopb (a + n - 1)%nat = false /\ n = S fuel) /\
@@ -253,7 +256,7 @@ Section ReconnectProofs.
             -- rewrite Ea. cbn [fst final_write]. rewrite app_nil_r. reflexivity.
             -- rewrite Ea. cbn. right. left. exists e'. reflexivity.
           * (* the next call *)
-            specialize (IH (S a) (t + Z.max 0 (fst (inner a)) + Z.max 0 d + Z.max 0 (fst (ready (S a))))).
+            specialize (IH (S a) (ceil_ms (t + Z.max 0 (fst (inner a)) + Z.max 0 d) + Z.max 0 (fst (ready (S a))))).
             set (r := go f (S a) _) in *. unfold run_props in IH.
             destruct IH as [[Hn1 Hn2] [Hmax [Hidx [Hout [Hfirst [Hsp [Hbefore [Hres [Hnone [Hwr Hlk]]]]]]]]]].
             unfold run_props. cbn [calls result writes length].
@@ -364,9 +367,11 @@ Section ReconnectProofs.
       (forall l1 c1 c2 l2, calls r = l1 ++ c1 :: c2 :: l2 ->
          c_idx c2 = S (c_idx c1) /\
          exists d, policy c (c_idx c2) = Some d /\
-           c_start c2 = c_end c1 + Z.max 0 d + Z.max 0 (fst (ready (c_idx c2))) /\
+           let dl := c_end c1 + Z.max 0 d in
+           c_start c2 = ceil_ms dl + Z.max 0 (fst (ready (c_idx c2))) /\
            c_start c2 >= c_end c1 + d /\
-           (fst (ready (c_idx c2)) <= 0 -> 0 <= d -> c_start c2 = c_end c1 + d)).
+           (fst (ready (c_idx c2)) <= 0 -> c_start c2 < dl + MS) /\
+           (fst (ready (c_idx c2)) <= 0 -> (exists k, dl = k * MS) -> c_start c2 = dl)).
     Proof.
       cbn zeta. pose proof (run_spec fuel t0) as H. unfold run_props in H.
       destruct H as [_ [_ [Hidx [Hout [Hfirst [Hsp _]]]]]].
@@ -379,7 +384,10 @@ Section ReconnectProofs.
         rewrite seq_app in Hidx. apply app_eq_len in Hidx.
         + destruct Hidx as [_ Hidx]. cbn [seq Nat.add] in Hidx. inversion Hidx. lia.
         + rewrite map_length, seq_length. reflexivity.
-      - exists d. split; [exact Hp|]. split; [exact Hs|]. split; lia.
+      - exists d. split; [exact Hp|]. split; [exact Hs|].
+        pose proof (ceil_ms_bounds (c_end c1 + Z.max 0 d)) as Hb.
+        split; [lia|]. split; [lia|].
+        intros Hr [k Hk]. rewrite Hs, Hk, ceil_ms_whole. lia.
     Qed.
 
     Lemma last_call fuel t0 :
@@ -468,9 +476,9 @@ Section ReconnectProofs.
           right. split; [reflexivity|]. intros [[v Hv]|[e0 He]]; discriminate.
     Qed.
 
-    (* the code counts attempts in a u32: the statements are about the code for runs with
-       fewer than 2^32 - 1 retries (no overflow of [attempt]); the hypothesis is not needed
-       for the model, whose counter is a nat *)
+    (* the code counts attempts in a saturating u32: the statements are about the code for
+       runs with fewer than 2^32 - 1 retries ([attempt] below its ceiling); the hypothesis is
+       not needed for the model, whose counter is a nat *)
     Definition u32_run (fuel : nat) : Prop := Z.of_nat fuel + 1 < 2 ^ 32.
 
     Lemma call_bound_u32 fuel t0 : u32_run fuel ->
@@ -498,9 +506,11 @@ Section ReconnectProofs.
       (forall l1 c1 c2 l2, calls r = l1 ++ c1 :: c2 :: l2 ->
          c_idx c2 = S (c_idx c1) /\
          exists d, policy c (c_idx c2) = Some d /\
-           c_start c2 = c_end c1 + Z.max 0 d + Z.max 0 (fst (ready (c_idx c2))) /\
+           let dl := c_end c1 + Z.max 0 d in
+           c_start c2 = ceil_ms dl + Z.max 0 (fst (ready (c_idx c2))) /\
            c_start c2 >= c_end c1 + d /\
-           (fst (ready (c_idx c2)) <= 0 -> 0 <= d -> c_start c2 = c_end c1 + d)).
+           (fst (ready (c_idx c2)) <= 0 -> c_start c2 < dl + MS) /\
+           (fst (ready (c_idx c2)) <= 0 -> (exists k, dl = k * MS) -> c_start c2 = dl)).
     Proof. intros _. apply delay_before_retry. Qed.
 
     Lemma result_spec_u32 fuel t0 x : u32_run fuel ->
@@ -542,12 +552,20 @@ Section ReconnectProofs.
   Notation rst := (rst Res Err).
   Notation st := (st Res Err).
 
-  Definition delay_of (c : cfg) (prev : call) : Z :=
-    match policy c (S (c_idx prev)) with Some d => Z.max 0 d | None => 0 end.
+  (* delay_for_attempt as a Duration (clamped at 0; 0 when the policy gives none) *)
+  Definition pdelay (c : cfg) (a : nat) : Z :=
+    match policy c a with Some d => Z.max 0 d | None => 0 end.
+
+  Definition delay_of (c : cfg) (prev : call) : Z := pdelay c (S (c_idx prev)).
+
+  (* the instant the sleep after call [prev] is over: the timer rounds up to a millisecond *)
+  Definition wake_at (c : cfg) (prev : call) : Z := ceil_ms (c_end prev + delay_of c prev).
 
   (* the call failed with a connection failure and the future went to sleep after it *)
   Definition reconn (c : cfg) (prev : call) : Prop :=
     exists e d, sleeps_after c (c_idx prev) (c_out prev) d e.
+
+  Definition not_rerr (x : rdy Err) : Prop := match x with RErr _ => False | _ => True end.
 
   Fixpoint wf_log (c : cfg) (inp : rin) (l : list call) : Prop :=
     match l with
@@ -558,7 +576,7 @@ Section ReconnectProofs.
       match rest with
       | [] => True
       | prev :: _ => reconn c prev /\ retry_on_reconnect c = true /\
-                     c_end prev + delay_of c prev <= c_start cl
+                     wake_at c prev <= c_start cl /\ not_rerr (r_ready inp (c_idx cl))
       end /\ wf_log c inp rest
     end.
 
@@ -581,11 +599,25 @@ Section ReconnectProofs.
     | inr (ConnectionFailedNoRetry e) =>
       exists cl rest d, log r = cl :: rest /\ S (c_idx cl) = attempt r /\
                         sleeps_after c (c_idx cl) (c_out cl) d e /\
-                        retry_on_reconnect c = false /\ c_end cl + Z.max 0 d <= t
+                        retry_on_reconnect c = false /\ wake_at c cl <= t
     end.
 
-  Definition RI (c : cfg) (inp : rin) (t : Z) (r : rst) : Prop :=
+  (* what the future writes to the published state when it returns x *)
+  Definition tailw (x : Res + rerr) : list cstate :=
+    match x with
+    | inl _ => [Connected]
+    | inr (ServiceError _) => []
+    | inr (MaxAttemptsExceeded _ _) | inr (ConnectionFailed _) => [Disconnected]
+    | inr (ConnectionFailedNoRetry _) => [Connected]
+    end.
+
+  Lemma repeat_dr_S n : repeat_dr (S n) = repeat_dr n ++ [Disconnected; Reconnecting].
+  Proof. induction n as [|n IH]; [reflexivity|]. cbn [repeat_dr app] in *. rewrite <- IH. reflexivity. Qed.
+
+  (* invariant of one future; [wl] = what it has written to the published state, in order *)
+  Definition RI (c : cfg) (inp : rin) (t : Z) (r : rst) (wl : list cstate) : Prop :=
     wf_log c inp (log r) /\
+    wl = repeat_dr (attempt r) ++ match res r with Some x => tailw x | None => [] end /\
     match ph r with
     | PInit => attempt r = 0%nat /\ log r = [] /\ res r = None
     | PCalling _ =>
@@ -593,17 +625,17 @@ Section ReconnectProofs.
       match log r with
       | [] => True
       | prev :: _ => reconn c prev /\ retry_on_reconnect c = true /\
-                     c_end prev + delay_of c prev <= cur_start r
+                     wake_at c prev <= cur_start r /\ not_rerr (r_ready inp (attempt r))
       end
     | PSleeping dl =>
       res r = None /\
       exists prev rest e d, log r = prev :: rest /\ S (c_idx prev) = attempt r /\
                             sleeps_after c (c_idx prev) (c_out prev) d e /\
-                            last_error r = Some e /\ dl = c_end prev + Z.max 0 d
+                            last_error r = Some e /\ dl = wake_at c prev
     | PReadying _ =>
       res r = None /\ retry_on_reconnect c = true /\
       exists prev rest, log r = prev :: rest /\ S (c_idx prev) = attempt r /\ reconn c prev /\
-                        c_end prev + delay_of c prev <= t
+                        wake_at c prev <= t
     | PDone => exists x, res r = Some x /\ done_spec c inp t r x
     end.
 
@@ -647,31 +679,35 @@ Section ReconnectProofs.
 
   Lemma delay_of_sleeps c prev d e :
     sleeps_after c (c_idx prev) (c_out prev) d e -> delay_of c prev = Z.max 0 d.
-  Proof. intros [_ [_ [_ Hp]]]. unfold delay_of. rewrite Hp. reflexivity. Qed.
+  Proof. intros [_ [_ [_ Hp]]]. unfold delay_of, pdelay. rewrite Hp. reflexivity. Qed.
 
-  Definition poll_ok (r r' : rst) (p : pres Res Err) : Prop :=
+  Definition poll_ok (r r' : rst) (p : pres Res Err) (sw : bool) : Prop :=
     (p = Nothing -> ph r = PDone /\ r' = r) /\
-    (forall x, p = Ready x -> ph r <> PDone /\ ph r' = PDone /\ res r' = Some x).
+    (forall x, p = Ready x -> ph r <> PDone /\ ph r' = PDone /\ res r' = Some x) /\
+    (sw = true -> p = Pending).
 
-  Lemma poll_ok_pre0 (r r1 r' : rst) p :
-    ph r1 <> PDone -> ph r <> PDone -> poll_ok r1 r' p -> poll_ok r r' p.
+  Lemma poll_ok_pre0 (r r1 r' : rst) p sw :
+    ph r1 <> PDone -> ph r <> PDone -> poll_ok r1 r' p sw -> poll_ok r r' p sw.
   Proof.
-    intros H1 H0 [Ha Hb]. split.
+    intros H1 H0 [Ha [Hb Hc]]. split; [|split; [|exact Hc]].
     - intros Hn. destruct (Ha Hn) as [Hx _]. contradiction.
     - intros x Hx. destruct (Hb x Hx) as [_ Hy]. split; [exact H0|exact Hy].
   Qed.
 
-  Lemma poll_ok_pending (r : rst) : poll_ok r r Pending.
-  Proof. split; [discriminate|intros x H; discriminate]. Qed.
+  Lemma poll_ok_pending (r : rst) sw : poll_ok r r Pending sw.
+  Proof. split; [discriminate|]. split; [intros x H; discriminate|reflexivity]. Qed.
 
-  Lemma drive_RI (c : cfg) (inp : rin) fuel : forall t r r' ws p,
-    RI c inp t r ->
-    drive c inp fuel t r = (r', ws, p) ->
-    RI c inp t r' /\ pub r' = last_opt ws (pub r) /\ poll_ok r r' p.
+  Ltac stay HI :=
+    rewrite app_nil_r; split; [exact HI|]; split; [reflexivity|apply poll_ok_pending].
+
+  Lemma drive_RI (c : cfg) (inp : rin) fuel : forall coop t r wl r' ws p sw,
+    RI c inp t r wl ->
+    drive c inp fuel coop t r = (r', ws, p, sw) ->
+    RI c inp t r' (wl ++ ws) /\ pub r' = last_opt ws (pub r) /\ poll_ok r r' p sw.
   Proof.
-    induction fuel as [|f IH]; intros t r r' ws p HI Hd.
-    - cbn in Hd. injection Hd as <- <- <-. split; [exact HI|]. split; [reflexivity|apply poll_ok_pending].
-    - cbn [drive] in Hd. destruct HI as [Hwf Hph].
+    induction fuel as [|f IH]; intros coop t r wl r' ws p sw HI Hd.
+    - cbn in Hd. injection Hd as <- <- <- <-. stay HI.
+    - cbn [drive] in Hd. pose proof HI as HI0. destruct HI as [Hwf [Hwl Hph]].
       destruct (ph r) as [|av|dl|rel|] eqn:Eph.
       + (* PInit *)
         destruct Hph as [Ha [Hl Hr]].
@@ -680,13 +716,15 @@ Section ReconnectProofs.
           -- rewrite H2. f_equal. unfold pub, start_call. cbn [ph attempt]. rewrite Eph, Ha. reflexivity.
           -- eapply poll_ok_pre0; [| |exact H3]; [cbn [ph start_call]; discriminate|rewrite Eph; discriminate].
         * unfold RI, start_call. cbn [log ph attempt res cur_start].
-          split; [exact Hwf|]. rewrite Hl. cbn [length].
+          split; [exact Hwf|]. split; [exact Hwl|]. rewrite Hl. cbn [length].
           split; [exact Ha|]. split; [exact Hr|]. split; [lia|exact I].
       + (* PCalling *)
         destruct Hph as [Ha [Hr [Hcs Hprev]]].
-        destruct av.
-        2:{ injection Hd as <- <- <-. split; [split; [exact Hwf|rewrite Eph; repeat split; assumption]|].
-            split; [reflexivity|apply poll_ok_pending]. }
+        destruct (fst (r_inner inp (attempt r)) && (coop =? 0)%nat) eqn:Eg.
+        { injection Hd as <- <- <- <-. stay HI0. }
+        destruct av; cbn [negb] in Hd.
+        2:{ injection Hd as <- <- <- <-. stay HI0. }
+        set (coop1 := if fst (r_inner inp (attempt r)) then Nat.pred coop else coop) in *.
         set (o := snd (r_inner inp (attempt r))) in *.
         set (cl := mkCall (attempt r) (cur_start r) t o) in *.
         assert (Hwf' : wf_log c inp (cl :: log r)).
@@ -695,12 +733,16 @@ Section ReconnectProofs.
           split; [|exact Hwf]. destruct (log r); [exact I|exact Hprev]. }
         assert (Hpub : pub r = if (attempt r =? 0)%nat then None else Some Reconnecting)
           by (unfold pub; rewrite Eph; reflexivity).
+        rewrite Hr in Hwl. rewrite app_nil_r in Hwl.
         destruct (after_outcome c (attempt r) o) as [ws0 act] eqn:Ea.
         destruct act as [x|d e].
-        * injection Hd as <- <- <-.
+        * injection Hd as <- <- <- <-.
           apply after_return in Ea. destruct Ea as [Hrs Hws].
           split.
           { unfold RI. cbn [log ph attempt res cur_start]. split; [exact Hwf'|].
+            split.
+            { rewrite Hwl, Hws. unfold tailw. destruct x as [v|[n e|e|e|e]]; try reflexivity.
+              unfold returns_spec in Hrs. contradiction. }
             exists x. split; [reflexivity|]. unfold done_spec, returns_spec in *. cbn [log attempt].
             destruct x as [v|[n e|e|e|e]].
             - exists cl, (log r). repeat split; assumption.
@@ -714,108 +756,114 @@ Section ReconnectProofs.
           split.
           { unfold pub at 1. cbn [ph res attempt]. rewrite Hpub, Hws.
             destruct x as [v|[n e|e|e|e]]; try reflexivity. contradiction. }
-          split; [discriminate|]. intros x0 Hx. injection Hx as <-.
+          split; [discriminate|]. split; [|discriminate]. intros x0 Hx. injection Hx as <-.
           split; [rewrite Eph; discriminate|]. split; reflexivity.
         * apply after_retry in Ea. destruct Ea as [Hsl Hws].
-          destruct (drive c inp f t _) as [[r1 ws1] p1] eqn:Ed.
-          injection Hd as <- <- <-.
-          eapply IH in Ed.
+          destruct (drive c inp f coop1 t _) as [[[r1 ws1] p1] sw1] eqn:Ed.
+          injection Hd as <- <- <- <-.
+          eapply (IH _ _ _ (wl ++ ws0)) in Ed.
           2:{ unfold RI. cbn [log ph attempt res cur_start last_error].
-              split; [exact Hwf'|]. split; [exact Hr|].
+              split; [exact Hwf'|].
+              split; [rewrite Hr, app_nil_r, Hwl, Hws; symmetry; apply repeat_dr_S|].
+              split; [exact Hr|].
               exists cl, (log r), e, d. subst cl. cbn [c_idx c_end c_out].
-              split; [reflexivity|]. split; [reflexivity|]. split; [exact Hsl|]. split; reflexivity. }
-          destruct Ed as [H1 [H2 H3]]. split; [exact H1|]. split.
+              split; [reflexivity|]. split; [reflexivity|]. split; [exact Hsl|]. split; [reflexivity|].
+              unfold wake_at. cbn [c_end]. f_equal. f_equal.
+              symmetry. apply (delay_of_sleeps c _ d e). cbn [c_idx c_out]. exact Hsl. }
+          destruct Ed as [H1 [H2 H3]]. split; [rewrite app_assoc; exact H1|]. split.
           { rewrite H2, last_opt_app. f_equal. rewrite Hws. reflexivity. }
           eapply poll_ok_pre0; [| |exact H3]; [cbn [ph]; discriminate|rewrite Eph; discriminate].
       + (* PSleeping *)
         destruct Hph as [Hr [prev [rest [e [d [Hl [Hi [Hsl [Hle Hdl]]]]]]]]].
         assert (Hre : reconn c prev) by (exists e, d; exact Hsl).
+        destruct coop as [|k].
+        { injection Hd as <- <- <- <-. stay HI0. }
         destruct (dl <=? t) eqn:Et.
-        2:{ injection Hd as <- <- <-.
-            split; [split; [exact Hwf|rewrite Eph; split; [exact Hr|];
-                            exists prev, rest, e, d;
-                            split; [exact Hl|]; split; [exact Hi|]; split; [exact Hsl|];
-                            split; [exact Hle|exact Hdl]]|].
-            split; [reflexivity|apply poll_ok_pending]. }
+        2:{ injection Hd as <- <- <- <-. stay HI0. }
         apply Z.leb_le in Et. rewrite Hle in Hd.
+        rewrite Hr in Hwl. rewrite app_nil_r in Hwl.
         unfold after_sleep in Hd. destruct (retry_on_reconnect c) eqn:Hrt.
         * eapply IH in Hd.
           -- destruct Hd as [H1 [H2 H3]]. split; [exact H1|]. split.
              ++ rewrite H2. f_equal. unfold pub. cbn [ph]. rewrite Eph. reflexivity.
              ++ eapply poll_ok_pre0; [| |exact H3]; [cbn [ph]; discriminate|rewrite Eph; discriminate].
           -- unfold RI. cbn [log ph attempt res cur_start]. split; [exact Hwf|].
+             split; [rewrite Hr, app_nil_r; exact Hwl|].
              split; [exact Hr|]. split; [exact Hrt|]. exists prev, rest.
-             split; [exact Hl|]. split; [exact Hi|]. split; [exact Hre|].
-             rewrite (delay_of_sleeps _ _ _ _ Hsl). lia.
-        * injection Hd as <- <- <-. split.
+             split; [exact Hl|]. split; [exact Hi|]. split; [exact Hre|]. lia.
+        * injection Hd as <- <- <- <-. split.
           { unfold RI. cbn [log ph attempt res cur_start]. split; [exact Hwf|].
+            split; [rewrite Hwl; reflexivity|].
             exists (inr (ConnectionFailedNoRetry e)). split; [reflexivity|].
             unfold done_spec. cbn [log attempt]. exists prev, rest, d.
             split; [exact Hl|]. split; [exact Hi|]. split; [exact Hsl|]. split; [exact Hrt|lia]. }
           split; [reflexivity|].
-          split; [discriminate|]. intros x0 Hx. injection Hx as <-.
+          split; [discriminate|]. split; [|discriminate]. intros x0 Hx. injection Hx as <-.
           split; [rewrite Eph; discriminate|]. split; reflexivity.
       + (* PReadying *)
         destruct Hph as [Hr [Hrt [prev [rest [Hl [Hi [Hre Hsp]]]]]]].
         assert (Hne : (attempt r =? 0)%nat = false) by (apply Nat.eqb_neq; lia).
-        assert (Hstart : RI c inp t (start_call inp t r)).
-        { unfold RI, start_call. cbn [log ph attempt res cur_start]. split; [exact Hwf|].
+        assert (Hstart : not_rerr (r_ready inp (attempt r)) -> RI c inp t (start_call inp t r) wl).
+        { intros Hnr. unfold RI, start_call. cbn [log ph attempt res cur_start]. split; [exact Hwf|].
+          split; [exact Hwl|].
           rewrite Hl in *. apply wf_log_length in Hwf. cbn [length].
           split; [lia|]. split; [exact Hr|]. split; [lia|].
-          split; [exact Hre|]. split; [exact Hrt|exact Hsp]. }
+          split; [exact Hre|]. split; [exact Hrt|]. split; [exact Hsp|exact Hnr]. }
         assert (Hpubs : pub (start_call inp t r) = pub r).
         { unfold pub, start_call. cbn [ph attempt]. rewrite Eph, Hne. reflexivity. }
         destruct (r_ready inp (attempt r)) as [|e|] eqn:Erd.
-        * eapply IH in Hd; [|exact Hstart].
+        * eapply IH in Hd; [|apply Hstart; exact I].
           destruct Hd as [H1 [H2 H3]]. split; [exact H1|]. split; [rewrite H2, Hpubs; reflexivity|].
           eapply poll_ok_pre0; [| |exact H3]; [cbn [ph start_call]; discriminate|rewrite Eph; discriminate].
-        * injection Hd as <- <- <-. split.
+        * injection Hd as <- <- <- <-. rewrite app_nil_r. split.
           { unfold RI. cbn [log ph attempt res cur_start]. split; [exact Hwf|].
+            split; [rewrite Hwl, Hr; reflexivity|].
             exists (inr (ServiceError e)). split; [reflexivity|].
             unfold done_spec. cbn [log attempt]. right. exists prev, rest. repeat split; assumption. }
           split.
           { unfold pub. cbn [ph res attempt last_opt]. rewrite Eph, Hne. reflexivity. }
-          split; [discriminate|]. intros x0 Hx. injection Hx as <-.
+          split; [discriminate|]. split; [|discriminate]. intros x0 Hx. injection Hx as <-.
           split; [rewrite Eph; discriminate|]. split; reflexivity.
         * destruct rel.
-          -- eapply IH in Hd; [|exact Hstart].
+          -- eapply IH in Hd; [|apply Hstart; exact I].
              destruct Hd as [H1 [H2 H3]]. split; [exact H1|]. split; [rewrite H2, Hpubs; reflexivity|].
              eapply poll_ok_pre0; [| |exact H3]; [cbn [ph start_call]; discriminate|rewrite Eph; discriminate].
-          -- injection Hd as <- <- <-.
-             split; [split; [exact Hwf|rewrite Eph; split; [exact Hr|]; split; [exact Hrt|];
-                             exists prev, rest; repeat split; assumption]|].
-             split; [reflexivity|apply poll_ok_pending].
-      + injection Hd as <- <- <-. split; [split; [exact Hwf|rewrite Eph; exact Hph]|].
-        split; [reflexivity|]. split; [intros _; split; [exact Eph|reflexivity]|discriminate].
+          -- injection Hd as <- <- <- <-. stay HI0.
+      + injection Hd as <- <- <- <-. rewrite app_nil_r. split; [exact HI0|].
+        split; [reflexivity|]. split; [intros _; split; [exact Eph|reflexivity]|].
+        split; discriminate.
   Qed.
 
   (* an attempt counter only grows in a poll that writes the published state *)
-  Lemma drive_attempt (c : cfg) (inp : rin) fuel : forall t r r' ws p,
-    drive c inp fuel t r = (r', ws, p) ->
+  Lemma drive_attempt (c : cfg) (inp : rin) fuel : forall coop t r r' ws p sw,
+    drive c inp fuel coop t r = (r', ws, p, sw) ->
     (attempt r <= attempt r')%nat /\ ((attempt r < attempt r')%nat -> ws <> []).
   Proof.
-    induction fuel as [|f IH]; intros t r r' ws p Hd.
-    - cbn in Hd. injection Hd as <- <- <-. split; lia.
-    - cbn [drive] in Hd. destruct (ph r) as [|[|]|dl|rel|].
+    induction fuel as [|f IH]; intros coop t r r' ws p sw Hd.
+    - cbn in Hd. injection Hd as <- <- <- <-. split; lia.
+    - cbn [drive] in Hd. destruct (ph r) as [|av|dl|rel|].
       + apply IH in Hd. exact Hd.
-      + destruct (after_outcome c (attempt r) (snd (r_inner inp (attempt r)))) as [ws0 act] eqn:Ea.
+      + destruct (fst (r_inner inp (attempt r)) && (coop =? 0)%nat);
+          [injection Hd as <- <- <- <-; split; lia|].
+        destruct av; cbn [negb] in Hd; [|injection Hd as <- <- <- <-; split; lia].
+        destruct (after_outcome c (attempt r) (snd (r_inner inp (attempt r)))) as [ws0 act] eqn:Ea.
         destruct act as [x|d e].
-        * injection Hd as <- <- <-. cbn [attempt]. split; lia.
+        * injection Hd as <- <- <- <-. cbn [attempt]. split; lia.
         * apply after_retry in Ea. destruct Ea as [_ ->].
-          destruct (drive c inp f t _) as [[r1 ws1] p1] eqn:Ed.
-          injection Hd as <- <- <-. apply IH in Ed. cbn [attempt] in Ed.
+          destruct (drive c inp f _ t _) as [[[r1 ws1] p1] sw1] eqn:Ed.
+          injection Hd as <- <- <- <-. apply IH in Ed. cbn [attempt] in Ed.
           split; [lia|]. intros _. discriminate.
-      + injection Hd as <- <- <-. split; lia.
-      + destruct (dl <=? t); [|injection Hd as <- <- <-; split; lia].
-        destruct (last_error r) as [e|]; [|injection Hd as <- <- <-; split; lia].
+      + destruct coop as [|k]; [injection Hd as <- <- <- <-; split; lia|].
+        destruct (dl <=? t); [|injection Hd as <- <- <- <-; split; lia].
+        destruct (last_error r) as [e|]; [|injection Hd as <- <- <- <-; split; lia].
         destruct (after_sleep c e) as [[ws0 x]|].
-        * injection Hd as <- <- <-. cbn [attempt]. split; lia.
+        * injection Hd as <- <- <- <-. cbn [attempt]. split; lia.
         * apply IH in Hd. exact Hd.
       + destruct (r_ready inp (attempt r)) as [|e|].
         * apply IH in Hd. exact Hd.
-        * injection Hd as <- <- <-. cbn [attempt]. split; lia.
-        * destruct rel; [apply IH in Hd; exact Hd|injection Hd as <- <- <-; split; lia].
-      + injection Hd as <- <- <-. split; lia.
+        * injection Hd as <- <- <- <-. cbn [attempt]. split; lia.
+        * destruct rel; [apply IH in Hd; exact Hd|injection Hd as <- <- <- <-; split; lia].
+      + injection Hd as <- <- <- <-. split; lia.
   Qed.
 
   (* ---------- global invariant ---------- *)
@@ -823,6 +871,27 @@ Section ReconnectProofs.
   Proof. unfold upd. rewrite Nat.eqb_refl. reflexivity. Qed.
   Lemma upd_other {A} (f : nat -> A) i v j : j <> i -> upd f i v j = f j.
   Proof. intros H. unfold upd. apply Nat.eqb_neq in H. rewrite H. reflexivity. Qed.
+
+  (* the values request i has written to the published state, oldest first *)
+  Definition writes_of (i : nat) (wl : list (nat * cstate)) : list cstate :=
+    rev (map snd (filter (fun x => Nat.eqb (fst x) i) wl)).
+
+  Lemma filter_pair_rev i j (ws : list cstate) :
+    filter (fun x : nat * cstate => Nat.eqb (fst x) j) (rev (map (pair i) ws)) =
+    if Nat.eqb i j then rev (map (pair i) ws) else [].
+  Proof.
+    induction ws as [|o ws IH]; cbn [map rev]; [destruct (Nat.eqb i j); reflexivity|].
+    rewrite filter_app, IH. cbn [filter fst].
+    destruct (Nat.eqb i j); [reflexivity|reflexivity].
+  Qed.
+
+  Lemma writes_of_poll i j ws wl :
+    writes_of j (rev (map (pair i) ws) ++ wl) = writes_of j wl ++ (if Nat.eqb i j then ws else []).
+  Proof.
+    unfold writes_of. rewrite filter_app, map_app, rev_app_distr. f_equal.
+    rewrite filter_pair_rev. destruct (Nat.eqb i j); [|reflexivity].
+    rewrite <- map_rev, rev_involutive, map_map. cbn [snd]. apply map_id.
+  Qed.
 
   (* the published state is what its last writer wrote (Disconnected before any write) *)
   Definition SI (s : st) : Prop :=
@@ -832,11 +901,11 @@ Section ReconnectProofs.
     end.
 
   Definition GI (c : cfg) (inps : nat -> rin) (s : st) : Prop :=
-    (forall i, RI c (inps i) (now s) (reqs s i)) /\ SI s.
+    (forall i, RI c (inps i) (now s) (reqs s i) (writes_of i (wlog s))) /\ SI s.
 
-  Lemma RI_mono c inp t t' r : t <= t' -> RI c inp t r -> RI c inp t' r.
+  Lemma RI_mono c inp t t' r wl : t <= t' -> RI c inp t r wl -> RI c inp t' r wl.
   Proof.
-    intros Ht [Hwf H]. split; [exact Hwf|]. destruct (ph r); try exact H.
+    intros Ht [Hwf [Hwl H]]. split; [exact Hwf|]. split; [exact Hwl|]. destruct (ph r); try exact H.
     - destruct H as [H1 [H2 [H3 H4]]]. repeat split; try assumption. lia.
     - destruct H as [H1 [H2 [prev [rest [H3 [H4 [H5 H6]]]]]]]. split; [exact H1|]. split; [exact H2|].
       exists prev, rest. repeat split; try assumption. lia.
@@ -867,9 +936,9 @@ Section ReconnectProofs.
   Proof. intros H. unfold pub. cbn [ph]. rewrite H. reflexivity. Qed.
 
   (* replacing the state of request i by one with the same published value keeps SI *)
-  Lemma SI_upd_same (s : st) i r' t wk pl :
+  Lemma SI_upd_same (s : st) i r' t wk pl wlg :
     SI s -> pub r' = pub (reqs s i) ->
-    SI (mkSt t (cs s) (upd (reqs s) i r') wk pl (writer s)).
+    SI (mkSt t (cs s) (upd (reqs s) i r') wk pl (writer s) wlg).
   Proof.
     unfold SI. cbn [writer cs reqs]. intros H Hp. destruct (writer s) as [w|].
     - destruct (Nat.eq_dec w i) as [->|Hne]; [rewrite upd_same, Hp; exact H|].
@@ -879,28 +948,30 @@ Section ReconnectProofs.
       rewrite upd_other by exact Hne. apply H2.
   Qed.
 
-  Lemma GI_step c inps pf s e : GI c inps s -> GI c inps (step_st c inps pf s e).
+  Lemma GI_step c inps pf cp s e : GI c inps s -> GI c inps (step_st c inps pf cp s e).
   Proof.
     intros [HR HS]. unfold step_st. destruct e as [i|d|i|i|i]; cbn [step].
     - (* Poll *)
-      destruct (drive c (inps i) pf (now s) (reqs s i)) as [[r' ws] p] eqn:Ed.
-      cbn [fst]. destruct (drive_RI _ _ _ _ _ _ _ _ (HR i) Ed) as [H1 [H2 _]].
+      destruct (drive c (inps i) pf cp (now s) (reqs s i)) as [[[r' ws] p] sw] eqn:Ed.
+      cbn [fst]. destruct (drive_RI _ _ _ _ _ _ _ _ _ _ _ (HR i) Ed) as [H1 [H2 _]].
       split.
-      + intros j. cbn [now reqs].
-        destruct (Nat.eq_dec j i) as [->|Hne]; [rewrite upd_same; exact H1|].
-        rewrite upd_other by exact Hne. apply HR.
+      + intros j. cbn [now reqs wlog]. rewrite writes_of_poll.
+        destruct (Nat.eq_dec j i) as [->|Hne]; [rewrite upd_same, Nat.eqb_refl; exact H1|].
+        rewrite upd_other by exact Hne.
+        replace (Nat.eqb i j) with false by (symmetry; apply Nat.eqb_neq; congruence).
+        rewrite app_nil_r. apply HR.
       + destruct ws as [|w ws].
         * cbn [last]. apply SI_upd_same; [exact HS|exact H2].
         * unfold SI. cbn [writer cs reqs]. rewrite upd_same, H2. cbn [last_opt]. f_equal.
           apply last_nonempty. discriminate.
     - (* Advance *)
       cbn [fst]. split.
-      + intros i. cbn [now reqs]. eapply RI_mono; [|apply HR]. lia.
+      + intros i. cbn [now reqs wlog]. eapply RI_mono; [|apply HR]. lia.
       + exact HS.
     - (* Complete *)
       destruct (ph (reqs s i)) as [|[|]|dl|rel|] eqn:Eph; cbn [fst]; try (split; assumption).
       split.
-      + intros j. cbn [now reqs].
+      + intros j. cbn [now reqs wlog].
         destruct (Nat.eq_dec j i) as [->|Hne]; [|rewrite upd_other by exact Hne; apply HR].
         rewrite upd_same. specialize (HR i). unfold RI in *. rewrite Eph in HR.
         cbn [ph log attempt res cur_start]. exact HR.
@@ -908,26 +979,29 @@ Section ReconnectProofs.
     - (* MakeReady *)
       destruct (ph (reqs s i)) as [|av|dl|[|]|] eqn:Eph; cbn [fst]; try (split; assumption).
       split.
-      + intros j. cbn [now reqs].
+      + intros j. cbn [now reqs wlog].
         destruct (Nat.eq_dec j i) as [->|Hne]; [|rewrite upd_other by exact Hne; apply HR].
         rewrite upd_same. specialize (HR i). unfold RI in *. rewrite Eph in HR.
         cbn [ph log attempt res cur_start]. exact HR.
       + apply SI_upd_same; [exact HS|]. eapply pub_flag_readying. exact Eph.
     - (* Call *)
       destruct (ph (reqs s i)) as [|av|dl|rel|] eqn:Eph; cbn [fst]; try (split; assumption).
-      pose proof (HR i) as [Hwf Hi]. rewrite Eph in Hi. destruct Hi as [Ha [Hl Hr]].
+      pose proof (HR i) as [Hwf [Hwl Hi]]. rewrite Eph in Hi. destruct Hi as [Ha [Hl Hr]].
       split.
-      + intros j. cbn [now reqs].
+      + intros j. cbn [now reqs wlog].
         destruct (Nat.eq_dec j i) as [->|Hne]; [|rewrite upd_other by exact Hne; apply HR].
         rewrite upd_same. unfold RI, start_call. cbn [log ph attempt res cur_start].
-        split; [exact Hwf|]. rewrite Hl. cbn [length].
+        split; [exact Hwf|]. split; [exact Hwl|]. rewrite Hl. cbn [length].
         split; [exact Ha|]. split; [exact Hr|]. split; [lia|exact I].
       + apply SI_upd_same; [exact HS|]. unfold pub, start_call. cbn [ph attempt].
         rewrite Eph, Ha. reflexivity.
   Qed.
 
-  Lemma GI_reach c inps pf evs : Forall (GI c inps) (states (step_st c inps pf) init evs).
+  Lemma GI_reach c inps pf cp evs : Forall (GI c inps) (states (step_st c inps pf cp) init evs).
   Proof. apply reach_inv; [apply GI_init|]. intros s e H. apply GI_step. exact H. Qed.
+
+  Lemma GI_fold c inps pf cp evs : GI c inps (fold_left (step_st c inps pf cp) evs init).
+  Proof. apply fold_left_inv; [apply GI_init|]. intros s0 e H. apply GI_step. exact H. Qed.
 
   Lemma started_length (r : rst) :
     length (started_calls r) =
@@ -954,10 +1028,10 @@ Section ReconnectProofs.
   Qed.
 
   (* C16_call_bound at poll granularity *)
-  Lemma RI_calls c inp t r m :
-    RI c inp t r -> max_attempts c = Some m -> (length (started_calls r) <= m + 1)%nat.
+  Lemma RI_calls c inp t r wl m :
+    RI c inp t r wl -> max_attempts c = Some m -> (length (started_calls r) <= m + 1)%nat.
   Proof.
-    intros [Hwf H] Hm. rewrite started_length.
+    intros [Hwf [_ H]] Hm. rewrite started_length.
     pose proof (wf_log_bound _ _ _ _ Hwf Hm) as Hb.
     destruct (ph r) as [|av|dl|rel|]; try lia.
     destruct H as [_ [_ [_ Hp]]]. destruct (log r) as [|prev rest] eqn:El; [cbn; lia|].
@@ -965,19 +1039,26 @@ Section ReconnectProofs.
     apply wf_log_length in Hwf. cbn [length]. lia.
   Qed.
 
-  Definition sched_spec (c : cfg) (inp : rin) (t : Z) (r : rst) : Prop :=
+  Definition sched_spec (c : cfg) (inp : rin) (t : Z) (r : rst) (wl : list cstate) : Prop :=
     (forall m, max_attempts c = Some m -> (length (started_calls r) <= m + 1)%nat) /\
     wf_log c inp (log r) /\
     (forall av prev rest, ph r = PCalling av -> log r = prev :: rest ->
         reconn c prev /\ retry_on_reconnect c = true /\
-        c_end prev + delay_of c prev <= cur_start r) /\
+        wake_at c prev <= cur_start r /\ not_rerr (r_ready inp (attempt r))) /\
     (ph r = PDone <-> res r <> None) /\
-    (forall x, res r = Some x -> done_spec c inp t r x).
+    (forall x, res r = Some x -> done_spec c inp t r x) /\
+    wl = repeat_dr (attempt r) ++ match res r with Some x => tailw x | None => [] end.
 
-  Lemma RI_sched c inp t r : RI c inp t r -> sched_spec c inp t r.
+  Lemma RI_sched c inp t r wl : RI c inp t r wl -> sched_spec c inp t r wl.
   Proof.
     intros H. split; [intros m Hm; eapply RI_calls; eassumption|].
-    destruct H as [Hwf H]. split; [exact Hwf|].
+    destruct H as [Hwf [Hwl H]]. split; [exact Hwf|].
+    assert (G : (forall av prev rest, ph r = PCalling av -> log r = prev :: rest ->
+                   reconn c prev /\ retry_on_reconnect c = true /\
+                   wake_at c prev <= cur_start r /\ not_rerr (r_ready inp (attempt r))) /\
+                (ph r = PDone <-> res r <> None) /\
+                (forall x, res r = Some x -> done_spec c inp t r x));
+      [|destruct G as [G1 [G2 G3]]; split; [exact G1|]; split; [exact G2|]; split; [exact G3|exact Hwl]].
     destruct (ph r) as [|av|dl|rel|] eqn:Eph.
     - destruct H as [_ [_ Hr]]. rewrite Hr.
       split; [discriminate|]. split; [split; [discriminate|congruence]|discriminate].
@@ -993,34 +1074,174 @@ Section ReconnectProofs.
       intros x' E. injection E as <-. exact Hd.
   Qed.
 
-  Lemma any_schedule (c : cfg) (inps : nat -> rin) pf evs :
-    Forall (fun s => forall i, sched_spec c (inps i) (now s) (reqs s i))
-           (states (step_st c inps pf) init evs).
+  Lemma any_schedule (c : cfg) (inps : nat -> rin) pf cp evs :
+    Forall (fun s => forall i, sched_spec c (inps i) (now s) (reqs s i) (writes_of i (wlog s)))
+           (states (step_st c inps pf cp) init evs).
   Proof.
-    eapply Forall_impl; [|apply (GI_reach c inps pf evs)].
+    eapply Forall_impl; [|apply (GI_reach c inps pf cp evs)].
     intros s [HR _] i. apply RI_sched. apply HR.
   Qed.
 
   (* C16_state at poll granularity *)
-  Lemma state_any (c : cfg) (inps : nat -> rin) pf evs :
+  Lemma state_any (c : cfg) (inps : nat -> rin) pf cp evs :
     Forall (fun s => match writer s with
                      | None => cs s = Disconnected /\ forall i, pub (reqs s i) = None
                      | Some i => pub (reqs s i) = Some (cs s)
                      end)
-           (states (step_st c inps pf) init evs).
+           (states (step_st c inps pf cp) init evs).
   Proof.
-    eapply Forall_impl; [|apply (GI_reach c inps pf evs)]. intros s [_ HS]. exact HS.
+    eapply Forall_impl; [|apply (GI_reach c inps pf cp evs)]. intros s [_ HS]. exact HS.
   Qed.
 
-  Lemma poll_event (c : cfg) (inps : nat -> rin) pf evs i :
-    let s := fold_left (step_st c inps pf) evs init in
-    let s' := fst (step c inps pf s (Poll i)) in
-    let o := snd (step c inps pf s (Poll i)) in
+  (* ---------- progress: a poll only returns Pending when the future really waits, or
+     when the cooperative budget of the poll is used up (then it has woken itself) ---------- *)
+  Definition waiting (inp : rin) (t : Z) (r : rst) : Prop :=
+    match ph r with
+    | PCalling false => True
+    | PSleeping dl => t < dl
+    | PReadying false => r_ready inp (attempt r) = RGated
+    | _ => False
+    end.
+
+  Definition mu (coop : nat) (r : rst) : nat :=
+    (4 * coop + match ph r with
+                | PInit | PReadying _ => 3 | PCalling _ => 2 | PSleeping _ => 1 | PDone => 0
+                end)%nat.
+
+  (* the unreachable branch of the Sleeping arm *)
+  Definition sleep_ok (r : rst) : Prop :=
+    forall dl, ph r = PSleeping dl -> last_error r <> None.
+
+  Lemma drive_progress (c : cfg) (inp : rin) fuel : forall coop t r r' ws,
+    sleep_ok r -> (mu coop r < fuel)%nat ->
+    drive c inp fuel coop t r = (r', ws, Pending, false) -> waiting inp t r'.
+  Proof.
+    induction fuel as [|f IH]; intros coop t r r' ws Hs Hmu Hd; [lia|].
+    cbn [drive] in Hd. unfold mu in Hmu.
+    destruct (ph r) as [|av|dl|rel|] eqn:Eph.
+    - eapply IH; [| |exact Hd].
+      + intros dl H. discriminate.
+      + unfold mu, start_call. cbn [ph]. lia.
+    - destruct (fst (r_inner inp (attempt r)) && (coop =? 0)%nat); [discriminate|].
+      destruct av; cbn [negb] in Hd.
+      2:{ injection Hd as <- <-. unfold waiting. rewrite Eph. exact I. }
+      destruct (after_outcome c (attempt r) (snd (r_inner inp (attempt r)))) as [ws0 act] eqn:Ea.
+      destruct act as [x|d e]; [discriminate|].
+      destruct (drive c inp f _ t _) as [[[r1 ws1] p1] sw1] eqn:Ed.
+      injection Hd as <- <- -> ->.
+      eapply IH; [| |exact Ed].
+      + intros dl _. cbn [last_error]. discriminate.
+      + unfold mu. cbn [ph]. destruct (fst (r_inner inp (attempt r))); lia.
+    - destruct coop as [|k]; [discriminate|].
+      destruct (dl <=? t) eqn:Et.
+      + specialize (Hs dl Eph). destruct (last_error r) as [e|]; [|contradiction].
+        destruct (after_sleep c e) as [[ws0 x]|]; [discriminate|].
+        eapply IH; [| |exact Hd].
+        * intros dl' H. discriminate.
+        * unfold mu. cbn [ph]. lia.
+      + injection Hd as <- <-. unfold waiting. rewrite Eph. apply Z.leb_gt. exact Et.
+    - destruct (r_ready inp (attempt r)) as [|e|] eqn:Er.
+      + eapply IH; [| |exact Hd].
+        * intros dl H. discriminate.
+        * unfold mu, start_call. cbn [ph]. lia.
+      + discriminate.
+      + destruct rel.
+        * eapply IH; [| |exact Hd].
+          -- intros dl H. discriminate.
+          -- unfold mu, start_call. cbn [ph]. lia.
+        * injection Hd as <- <-. unfold waiting. rewrite Eph. exact Er.
+    - discriminate.
+  Qed.
+
+  Lemma RI_sleep_ok c inp t r wl : RI c inp t r wl -> sleep_ok r.
+  Proof.
+    intros [_ [_ H]] dl Hp. rewrite Hp in H.
+    destruct H as [_ [prev [rest [e [d [_ [_ [_ [Hle _]]]]]]]]]. rewrite Hle. discriminate.
+  Qed.
+
+  Lemma mu_lt_fuel pf cp r : (4 * cp + 3 < pf)%nat -> (mu cp r < pf)%nat.
+  Proof. unfold mu. destruct (ph r); lia. Qed.
+
+  Lemma poll_fuel_enough : (4 * COOP + 3 < poll_fuel)%nat.
+  Proof. unfold poll_fuel. lia. Qed.
+
+  (* a poll that ends on an exhausted budget has used it: every unit went into a completed
+     sleep (one reconnection attempt each), except at most one for the result of a gated call *)
+  Lemma drive_selfwake (c : cfg) (inp : rin) fuel : forall coop t r r' ws p,
+    drive c inp fuel coop t r = (r', ws, p, true) ->
+    (attempt r <= attempt r')%nat /\
+    (coop <= attempt r' - attempt r +
+             match ph r with
+             | PCalling true => if fst (r_inner inp (attempt r)) then 1 else 0
+             | PSleeping _ => 1
+             | _ => 0
+             end)%nat /\
+    match ph r' with
+    | PSleeping _ => True
+    | PCalling _ => fst (r_inner inp (attempt r')) = true
+    | _ => False
+    end.
+  Proof.
+    induction fuel as [|f IH]; intros coop t r r' ws p Hd; [discriminate|].
+    cbn [drive] in Hd. destruct (ph r) as [|av|dl|rel|] eqn:Eph.
+    - apply IH in Hd. unfold start_call in Hd. cbn [ph attempt] in Hd.
+      destruct Hd as [H1 [H2 H3]]. split; [exact H1|]. split; [|exact H3].
+      destruct (fst (r_inner inp (attempt r))); cbn [negb] in H2; lia.
+    - destruct (fst (r_inner inp (attempt r))) eqn:Eg; cbn [andb] in Hd.
+      + destruct (coop =? 0)%nat eqn:E0.
+        * injection Hd as <- _ _. apply Nat.eqb_eq in E0. rewrite Eph, Eg.
+          split; [lia|]. split; [lia|reflexivity].
+        * destruct av; cbn [negb] in Hd; [|discriminate].
+          destruct (after_outcome c (attempt r) (snd (r_inner inp (attempt r)))) as [ws0 act].
+          destruct act as [x|d e]; [discriminate|].
+          destruct (drive c inp f _ t _) as [[[r1 ws1] p1] sw1] eqn:Ed.
+          injection Hd as <- _ _ ->. apply IH in Ed. cbn [ph attempt] in Ed.
+          destruct Ed as [H1 [H2 H3]]. split; [lia|]. split; [lia|exact H3].
+      + destruct av; cbn [negb] in Hd; [|discriminate].
+        destruct (after_outcome c (attempt r) (snd (r_inner inp (attempt r)))) as [ws0 act].
+        destruct act as [x|d e]; [discriminate|].
+        destruct (drive c inp f _ t _) as [[[r1 ws1] p1] sw1] eqn:Ed.
+        injection Hd as <- _ _ ->. apply IH in Ed. cbn [ph attempt] in Ed.
+        destruct Ed as [H1 [H2 H3]]. split; [lia|]. split; [lia|exact H3].
+    - destruct coop as [|k].
+      + injection Hd as <- _ _. rewrite Eph. split; [lia|]. split; [lia|exact I].
+      + destruct (dl <=? t); [|discriminate].
+        destruct (last_error r) as [e|]; [|discriminate].
+        destruct (after_sleep c e) as [[ws0 x]|]; [discriminate|].
+        apply IH in Hd. cbn [ph attempt] in Hd. destruct Hd as [H1 [H2 H3]].
+        split; [lia|]. split; [lia|exact H3].
+    - destruct (r_ready inp (attempt r)) as [|e|].
+      + apply IH in Hd. unfold start_call in Hd. cbn [ph attempt] in Hd.
+        destruct Hd as [H1 [H2 H3]]. split; [exact H1|]. split; [|exact H3].
+        destruct (fst (r_inner inp (attempt r))); cbn [negb] in H2; lia.
+      + discriminate.
+      + destruct rel; [|discriminate].
+        apply IH in Hd. unfold start_call in Hd. cbn [ph attempt] in Hd.
+        destruct Hd as [H1 [H2 H3]]. split; [exact H1|]. split; [|exact H3].
+        destruct (fst (r_inner inp (attempt r))); cbn [negb] in H2; lia.
+    - discriminate.
+  Qed.
+
+  Lemma poll_event (c : cfg) (inps : nat -> rin) pf cp evs i :
+    (4 * cp + 3 < pf)%nat ->
+    let s := fold_left (step_st c inps pf cp) evs init in
+    let s' := fst (step c inps pf cp s (Poll i)) in
+    let o := snd (step c inps pf cp s (Poll i)) in
+    (o_res o = Pending -> o_self o = false -> waiting (inps i) (now s) (reqs s' i)) /\
+    (o_self o = true ->
+       o_res o = Pending /\ woken s' i = true /\
+       (cp <= S (attempt (reqs s' i) - attempt (reqs s i)))%nat /\
+       match ph (reqs s' i) with
+       | PSleeping _ => True
+       | PCalling _ => fst (r_inner (inps i) (attempt (reqs s' i))) = true
+       | _ => False
+       end) /\
     (o_res o = Nothing -> ph (reqs s i) = PDone /\ reqs s' i = reqs s i) /\
     (forall x, o_res o = Ready x ->
        ph (reqs s i) <> PDone /\ ph (reqs s' i) = PDone /\ res (reqs s' i) = Some x /\
        match x with
-       | inl _ | inr (ConnectionFailedNoRetry _) => cs s' = Connected
+       | inl _ => cs s' = Connected
+       | inr (ConnectionFailedNoRetry _) => cs s' = Connected
        | inr (MaxAttemptsExceeded _ _) | inr (ConnectionFailed _) => cs s' = Disconnected
        | inr (ServiceError _) => cs s' = cs s \/ cs s' = Reconnecting
        end) /\
@@ -1031,18 +1252,27 @@ Section ReconnectProofs.
        | _ => True
        end).
   Proof.
-    cbn zeta. set (s := fold_left (step_st c inps pf) evs init).
-    assert (HG : GI c inps s).
-    { apply fold_left_inv; [apply GI_init|]. intros s0 e H. apply GI_step. exact H. }
-    pose proof (GI_step c inps pf s (Poll i) HG) as [_ HS'].
+    intros Hpf. cbn zeta. set (s := fold_left (step_st c inps pf cp) evs init).
+    pose proof (GI_fold c inps pf cp evs) as HG. fold s in HG.
+    pose proof (GI_step c inps pf cp s (Poll i) HG) as [_ HS'].
     destruct HG as [HR HS]. unfold step_st in HS'. cbn [step] in *.
-    destruct (drive c (inps i) pf (now s) (reqs s i)) as [[r' ws] p] eqn:Ed.
-    cbn [fst snd o_res reqs cs writer] in *. rewrite upd_same.
-    destruct (drive_RI _ _ _ _ _ _ _ _ (HR i) Ed) as [H1 [H2 [P1 P2]]].
-    destruct (drive_attempt _ _ _ _ _ _ _ _ Ed) as [A1 A2].
+    destruct (drive c (inps i) pf cp (now s) (reqs s i)) as [[[r' ws] p] sw] eqn:Ed.
+    cbn [fst snd o_res o_self reqs cs writer woken] in *. rewrite !upd_same.
+    destruct (drive_RI _ _ _ _ _ _ _ _ _ _ _ (HR i) Ed) as [H1 [H2 [P1 [P2 P3]]]].
+    destruct (drive_attempt _ _ _ _ _ _ _ _ _ _ Ed) as [A1 A2].
     assert (Hcs : ws <> [] -> pub r' = Some (last ws (cs s))).
     { intros Hne. rewrite H2. destruct ws as [|w ws]; [contradiction|]. cbn [last_opt]. f_equal.
       apply last_nonempty. discriminate. }
+    split.
+    { intros -> ->. eapply drive_progress; [| |exact Ed].
+      - eapply RI_sleep_ok. apply HR.
+      - apply mu_lt_fuel. exact Hpf. }
+    split.
+    { intros ->. split; [apply P3; reflexivity|]. split; [reflexivity|].
+      destruct (drive_selfwake _ _ _ _ _ _ _ _ _ Ed) as [S1 [S2 S3]].
+      split; [|exact S3].
+      destruct (ph (reqs s i)) as [|[|]| | |]; try lia.
+      destruct (fst (r_inner (inps i) (attempt (reqs s i)))); lia. }
     split; [exact P1|]. split.
     - intros x Hx. destruct (P2 x Hx) as [Q1 [Q2 Q3]].
       split; [exact Q1|]. split; [exact Q2|]. split; [exact Q3|].
@@ -1072,23 +1302,402 @@ Section ReconnectProofs.
       + injection Hcs as Hcs. symmetry. exact Hcs.
   Qed.
 
-  Lemma poll_before_deadline (c : cfg) (inp : rin) f t r dl :
-    ph r = PSleeping dl -> t < dl -> drive c inp (S f) t r = (r, [], Pending).
+  Lemma poll_before_deadline (c : cfg) (inp : rin) f k t r dl :
+    ph r = PSleeping dl -> t < dl -> drive c inp (S f) (S k) t r = (r, [], Pending, false).
   Proof.
     intros Hp Ht. cbn [drive]. rewrite Hp.
     replace (dl <=? t) with false by (symmetry; apply Z.leb_gt; exact Ht). reflexivity.
   Qed.
 
-  Lemma poll_at_deadline (c : cfg) (inp : rin) f t r dl e :
+  Lemma poll_at_deadline (c : cfg) (inp : rin) f k t r dl e :
     ph r = PSleeping dl -> dl <= t -> last_error r = Some e -> retry_on_reconnect c = true ->
     r_ready inp (attempt r) = ROk ->
-    drive c inp (S (S f)) t r =
-    drive c inp f t (mkRst (PCalling (negb (fst (r_inner inp (attempt r))))) (attempt r)
-                           (last_error r) t (log r) (res r)).
+    drive c inp (S (S f)) (S k) t r =
+    drive c inp f k t (mkRst (PCalling (negb (fst (r_inner inp (attempt r))))) (attempt r)
+                             (last_error r) t (log r) (res r)).
   Proof.
     intros Hp Ht He Hrt Hr. cbn [drive]. rewrite Hp.
     replace (dl <=? t) with true by (symmetry; apply Z.leb_le; exact Ht).
     rewrite He. unfold after_sleep. rewrite Hrt. cbn [ph attempt]. rewrite Hr. reflexivity.
+  Qed.
+
+  (* ---------- the state clause for ONE request ---------- *)
+  Definition only0 (e : ev) : Prop :=
+    match e with
+    | Poll j | Complete j | MakeReady j | CallEv j => j = 0%nat
+    | Advance _ => True
+    end.
+
+  (* the request has observed a connection failure it is going to retry (or is retrying)
+     and has not returned *)
+  Definition handling (r : rst) : Prop :=
+    match ph r with
+    | PSleeping _ | PReadying _ => True
+    | PCalling _ => (0 < attempt r)%nat
+    | _ => False
+    end.
+
+  Lemma reach_inv_P {S E : Type} (step : S -> E -> S) (P : E -> Prop) (Inv : S -> Prop) :
+    (forall s e, P e -> Inv s -> Inv (step s e)) ->
+    forall evs init, Inv init -> Forall P evs -> Forall Inv (states step init evs).
+  Proof.
+    intros Hs evs. induction evs as [|e t IH]; intros s H HP; cbn [states].
+    - constructor; [exact H|constructor].
+    - inversion HP; subst. constructor; [exact H|]. apply IH; [|assumption]. apply Hs; assumption.
+  Qed.
+
+  Lemma writer_step (c : cfg) (inps : nat -> rin) pf cp (s : st) e :
+    only0 e -> (writer s = None \/ writer s = Some 0%nat) ->
+    (writer (step_st c inps pf cp s e) = None \/ writer (step_st c inps pf cp s e) = Some 0%nat).
+  Proof.
+    intros He Hw. unfold step_st. destruct e as [i|d|i|i|i]; cbn [step only0] in *.
+    - destruct (drive c (inps i) pf cp (now s) (reqs s i)) as [[[r' ws] p] sw].
+      cbn [fst writer]. destruct ws; [exact Hw|right; subst i; reflexivity].
+    - exact Hw.
+    - destruct (ph (reqs s i)) as [|[|]| | |]; exact Hw.
+    - destruct (ph (reqs s i)) as [| | |[|]|]; exact Hw.
+    - destruct (ph (reqs s i)); exact Hw.
+  Qed.
+
+  Lemma single_request_state (c : cfg) (inps : nat -> rin) pf cp evs :
+    Forall only0 evs ->
+    Forall (fun s => (handling (reqs s 0) -> cs s = Reconnecting) /\
+                     (forall v, res (reqs s 0) = Some (inl v) -> cs s = Connected) /\
+                     (forall j, j <> 0%nat -> reqs s j = init_rst))
+           (states (step_st c inps pf cp) init evs).
+  Proof.
+    intros Hev.
+    eapply Forall_impl;
+      [|apply (reach_inv_P (step_st c inps pf cp) only0
+                 (fun s => GI c inps s /\ (writer s = None \/ writer s = Some 0%nat) /\
+                           (forall j, j <> 0%nat -> reqs s j = init_rst)));
+        [|split; [apply GI_init|split; [left; reflexivity|intros; reflexivity]]|exact Hev]].
+    - intros s [[HR HS] [Hw Ho]]. split; [|split; [|exact Ho]].
+      + intros Hh. unfold SI in HS. destruct Hw as [Hw|Hw]; rewrite Hw in HS.
+        * destruct HS as [_ Hn]. specialize (Hn 0%nat). unfold pub, handling in *.
+          destruct (ph (reqs s 0)); try contradiction; try discriminate.
+          replace (attempt (reqs s 0) =? 0)%nat with false in Hn by (symmetry; apply Nat.eqb_neq; lia).
+          discriminate.
+        * unfold pub, handling in *. destruct (ph (reqs s 0)); try contradiction.
+          -- replace (attempt (reqs s 0) =? 0)%nat with false in HS by (symmetry; apply Nat.eqb_neq; lia).
+             injection HS as HS. symmetry. exact HS.
+          -- injection HS as HS. symmetry. exact HS.
+          -- injection HS as HS. symmetry. exact HS.
+      + intros v Hv. destruct (HR 0%nat) as [_ [_ Hph]].
+        assert (Hp : pub (reqs s 0) = Some Connected).
+        { unfold pub. destruct (ph (reqs s 0)).
+          - destruct Hph as [_ [_ H]]. congruence.
+          - destruct Hph as [_ [H _]]. congruence.
+          - destruct Hph as [H _]. congruence.
+          - destruct Hph as [H _]. congruence.
+          - rewrite Hv. reflexivity. }
+        unfold SI in HS. destruct Hw as [Hw|Hw]; rewrite Hw in HS.
+        * destruct HS as [_ Hn]. rewrite (Hn 0%nat) in Hp. discriminate.
+        * rewrite Hp in HS. injection HS as HS. symmetry. exact HS.
+    - intros s e He [HG [Hw Ho]]. split; [apply GI_step; exact HG|].
+      split; [apply writer_step; assumption|].
+      intros j Hj. unfold step_st. destruct e as [i|d|i|i|i]; cbn [step only0] in *.
+      + destruct (drive c (inps i) pf cp (now s) (reqs s i)) as [[[r' ws] p] sw].
+        cbn [fst reqs]. subst i. rewrite upd_other by exact Hj. apply Ho. exact Hj.
+      + cbn [fst reqs]. apply Ho. exact Hj.
+      + destruct (ph (reqs s i)) as [|[|]| | |]; cbn [fst reqs]; try (apply Ho; exact Hj).
+        subst i. rewrite upd_other by exact Hj. apply Ho. exact Hj.
+      + destruct (ph (reqs s i)) as [| | |[|]|]; cbn [fst reqs]; try (apply Ho; exact Hj).
+        subst i. rewrite upd_other by exact Hj. apply Ho. exact Hj.
+      + destruct (ph (reqs s i)); cbn [fst reqs]; try (apply Ho; exact Hj).
+        subst i. rewrite upd_other by exact Hj. apply Ho. exact Hj.
+  Qed.
+
+  (* ------------------------------------------------------------------ *)
+  (* refinement: what the step machine does for one request IS a run of [reconnect_run].
+     The streams are read off the request's log: outcomes and readiness errors are the
+     wrapped service's, durations and extra waits are the observed ones. *)
+  Fixpoint w_dur (l : list call) (k : nat) : Z :=
+    match l with
+    | [] => 0
+    | cl :: rest => if Nat.eqb k (length rest) then c_end cl - c_start cl else w_dur rest k
+    end.
+
+  Fixpoint w_slack (c : cfg) (l : list call) (k : nat) : Z :=
+    match l with
+    | [] => 0
+    | cl :: rest =>
+      if Nat.eqb k (length rest) then
+        match rest with prev :: _ => c_start cl - wake_at c prev | [] => 0 end
+      else w_slack c rest k
+    end.
+
+  Fixpoint w_t0 (l : list call) : Z :=
+    match l with
+    | [] => 0
+    | cl :: rest => match rest with [] => c_start cl | _ => w_t0 rest end
+    end.
+
+  Definition rdy_err (x : rdy Err) : option Err := match x with RErr e => Some e | _ => None end.
+
+  Definition w_inner (inp : rin) (l : list call) (k : nat) : Z * outcome :=
+    (w_dur l k, snd (r_inner inp k)).
+  Definition w_ready (c : cfg) (inp : rin) (l : list call) (k : nat) : Z * option Err :=
+    (w_slack c l k, rdy_err (r_ready inp k)).
+
+  (* a log (newest first) is what [go] produces from t0 on the given streams *)
+  Fixpoint replays (c : cfg) (inner : nat -> Z * outcome) (ready : nat -> Z * option Err)
+           (t0 : Z) (l : list call) : Prop :=
+    match l with
+    | [] => True
+    | cl :: rest =>
+      c_idx cl = length rest /\ c_out cl = snd (inner (c_idx cl)) /\
+      c_end cl = c_start cl + Z.max 0 (fst (inner (c_idx cl))) /\
+      match rest with
+      | [] => c_start cl = t0
+      | prev :: _ => c_start cl = wake_at c prev + Z.max 0 (fst (ready (c_idx cl)))
+      end /\ replays c inner ready t0 rest
+    end.
+
+  Lemma replays_of_wf c inp inner ready : forall l,
+    wf_log c inp l ->
+    (forall k, snd (inner k) = snd (r_inner inp k)) ->
+    (forall k, (k < length l)%nat -> fst (inner k) = w_dur l k /\ fst (ready k) = w_slack c l k) ->
+    replays c inner ready (w_t0 l) l.
+  Proof.
+    induction l as [|cl rest IH]; intros Hwf Hs Hk; [exact I|].
+    cbn [wf_log] in Hwf. destruct Hwf as [Hi [Ho [Hse [Hp Hwf]]]].
+    destruct (Hk (length rest)) as [Hd Hsl]; [cbn [length]; lia|].
+    cbn [w_dur w_slack] in Hd, Hsl. rewrite Nat.eqb_refl in Hd, Hsl.
+    cbn [replays]. split; [exact Hi|]. split; [rewrite Hs; exact Ho|].
+    split; [rewrite Hi, Hd; lia|].
+    assert (Hrest : replays c inner ready (w_t0 rest) rest).
+    { apply IH; [exact Hwf|exact Hs|]. intros k Hlt. destruct (Hk k) as [H1 H2]; [cbn [length]; lia|].
+      cbn [w_dur w_slack] in H1, H2.
+      replace (Nat.eqb k (length rest)) with false in H1, H2 by (symmetry; apply Nat.eqb_neq; lia).
+      split; assumption. }
+    destruct rest as [|prev rest'].
+    - split; [reflexivity|exact I].
+    - destruct Hp as [_ [_ [Hw _]]]. split; [rewrite Hi, Hsl; lia|]. exact Hrest.
+  Qed.
+
+  Lemma run_eta (r : run) : mkRun (calls r) (result r) (writes r) = r.
+  Proof. destruct r; reflexivity. Qed.
+
+  Lemma call_eta (cl : call) a t tf o :
+    c_idx cl = a -> c_start cl = t -> c_end cl = tf -> c_out cl = o -> mkCall a t tf o = cl.
+  Proof. destruct cl; cbn. intros <- <- <- <-. reflexivity. Qed.
+
+  Section Replay.
+    Context (c : cfg) (inner : nat -> Z * outcome) (ready : nat -> Z * option Err) (t0 : Z).
+    Notation go := (go c inner ready).
+    Notation stopb := (stop_at c inner ready).
+
+    (* one step of [go] at a call that is retried *)
+    Lemma go_retry_step f a t :
+      stopb a = false ->
+      go (S f) a t =
+      let tf := t + Z.max 0 (fst (inner a)) in
+      let r := go f (S a) (ceil_ms (tf + pdelay c (S a)) + Z.max 0 (fst (ready (S a)))) in
+      mkRun (mkCall a t tf (snd (inner a)) :: calls r) (result r)
+            ([Disconnected; Reconnecting] ++ writes r).
+    Proof.
+      intros Hst. destruct (stop_at_false _ _ _ _ Hst) as [e [d [Ho [Hs [Hx [Hp [Hrt Hr]]]]]]].
+      cbn [Reconnect.go]. unfold after_outcome. rewrite Ho, Hs. cbn [negb]. rewrite Hx, Hp.
+      unfold after_sleep. rewrite Hrt, Hr. unfold pdelay. rewrite Hp. reflexivity.
+    Qed.
+
+    Lemma go_replay : forall rest cl f,
+      replays c inner ready t0 (cl :: rest) ->
+      (forall k, (k < length rest)%nat -> stopb k = false) ->
+      go (f + length rest) 0 t0 =
+      let r := go f (length rest) (c_start cl) in
+      mkRun (rev rest ++ calls r) (result r) (repeat_dr (length rest) ++ writes r).
+    Proof.
+      induction rest as [|prev rest' IH]; intros cl f Hrp Hst.
+      - cbn [replays] in Hrp. destruct Hrp as [_ [_ [_ [Ht _]]]].
+        cbn [length rev app repeat_dr]. rewrite Nat.add_0_r, Ht. cbn zeta.
+        symmetry. apply run_eta.
+      - cbn [replays] in Hrp. destruct Hrp as [Hi [Ho [He [Hs Hrp']]]].
+        cbn [length]. replace (f + S (length rest'))%nat with (S f + length rest')%nat by lia.
+        rewrite (IH prev (S f) Hrp') by (intros k Hk; apply Hst; cbn [length]; lia).
+        cbn zeta.
+        pose proof Hrp' as Hp. cbn [replays] in Hp. destruct Hp as [Hpi [Hpo [Hpe _]]].
+        rewrite go_retry_step by (apply Hst; cbn [length]; lia). cbn zeta.
+        cbn [calls result writes].
+        assert (Hprev : mkCall (length rest') (c_start prev)
+                          (c_start prev + Z.max 0 (fst (inner (length rest'))))
+                          (snd (inner (length rest'))) = prev).
+        { apply call_eta; [exact Hpi|reflexivity|rewrite Hpe, Hpi; reflexivity|rewrite Hpo, Hpi; reflexivity]. }
+        rewrite Hprev.
+        assert (Hnext : ceil_ms (c_start prev + Z.max 0 (fst (inner (length rest'))) +
+                                 pdelay c (S (length rest'))) +
+                        Z.max 0 (fst (ready (S (length rest')))) = c_start cl).
+        { rewrite Hs. unfold wake_at, delay_of. rewrite Hpe, Hpi, Hi. cbn [length]. reflexivity. }
+        rewrite Hnext. f_equal.
+        + cbn [rev]. rewrite <- app_assoc. reflexivity.
+        + rewrite app_assoc, <- repeat_dr_S. reflexivity.
+    Qed.
+
+    Lemma newest_eta cl rest :
+      replays c inner ready t0 (cl :: rest) ->
+      mkCall (length rest) (c_start cl) (c_start cl + Z.max 0 (fst (inner (length rest))))
+             (snd (inner (length rest))) = cl.
+    Proof.
+      cbn [replays]. intros [Hi [Ho [He _]]]. rewrite Hi in *.
+      apply call_eta; [exact Hi|reflexivity|exact He|exact Ho].
+    Qed.
+
+    (* the three ways [go] ends at a call, for any fuel *)
+    Lemma go_return f a t ws (x : Res + rerr) :
+      after_outcome c a (snd (inner a)) = (ws, AReturn x) ->
+      go f a t = mkRun [mkCall a t (t + Z.max 0 (fst (inner a))) (snd (inner a))] (Some x) ws.
+    Proof. intros H. destruct f; cbn [Reconnect.go]; rewrite H; reflexivity. Qed.
+
+    Lemma go_no_retry f a t ws d e :
+      after_outcome c a (snd (inner a)) = (ws, ARetry d e) -> retry_on_reconnect c = false ->
+      go f a t = mkRun [mkCall a t (t + Z.max 0 (fst (inner a))) (snd (inner a))]
+                       (Some (inr (ConnectionFailedNoRetry e))) (ws ++ [Connected]).
+    Proof.
+      intros H Hrt. destruct f; cbn [Reconnect.go]; rewrite H; unfold after_sleep; rewrite Hrt; reflexivity.
+    Qed.
+
+    Lemma go_not_ready f a t ws d e e' :
+      after_outcome c a (snd (inner a)) = (ws, ARetry d e) -> retry_on_reconnect c = true ->
+      snd (ready (S a)) = Some e' ->
+      go f a t = mkRun [mkCall a t (t + Z.max 0 (fst (inner a))) (snd (inner a))]
+                       (Some (inr (ServiceError e'))) ws.
+    Proof.
+      intros H Hrt Hr.
+      destruct f; cbn [Reconnect.go]; rewrite H; unfold after_sleep; rewrite Hrt, Hr; reflexivity.
+    Qed.
+
+    (* a replayed log whose newest call ends the run *)
+    Lemma refine_end cl rest fuel (xo : option (Res + rerr)) ws :
+      replays c inner ready t0 (cl :: rest) ->
+      (forall k, (k < length rest)%nat -> stopb k = false) ->
+      (length rest <= fuel)%nat ->
+      (forall f t, go f (length rest) t =
+                   mkRun [mkCall (length rest) t (t + Z.max 0 (fst (inner (length rest))))
+                                 (snd (inner (length rest)))] xo ws) ->
+      go fuel 0 t0 = mkRun (rev (cl :: rest)) xo (repeat_dr (length rest) ++ ws).
+    Proof.
+      intros Hrp Hst HF Hend.
+      replace fuel with ((fuel - length rest) + length rest)%nat by lia.
+      rewrite (go_replay rest cl _ Hrp Hst). cbn zeta.
+      rewrite Hend. cbn [calls result writes].
+      rewrite (newest_eta _ _ Hrp). reflexivity.
+    Qed.
+  End Replay.
+
+  Lemma wf_retried c inp : forall l k,
+    wf_log c inp l -> (S k < length l)%nat ->
+    (exists e d, sleeps_after c k (snd (r_inner inp k)) d e) /\ retry_on_reconnect c = true /\
+    not_rerr (r_ready inp (S k)).
+  Proof.
+    induction l as [|cl rest IH]; intros k Hwf Hk; [cbn in Hk; lia|].
+    cbn [wf_log] in Hwf. destruct Hwf as [Hi [_ [_ [Hp Hwf]]]]. cbn [length] in Hk.
+    destruct (Nat.eq_dec (S k) (length rest)) as [E|NE]; [|apply IH; [exact Hwf|lia]].
+    destruct rest as [|prev rest']; [cbn in E; lia|].
+    destruct Hp as [[e [d Hsl]] [Hrt [_ Hnr]]].
+    cbn [wf_log] in Hwf. destruct Hwf as [Hpi [Hpo _]]. cbn [length] in E.
+    assert (Hk' : c_idx prev = k) by lia.
+    split; [exists e, d; rewrite <- Hk', <- Hpo; exact Hsl|]. split; [exact Hrt|].
+    rewrite Hi in Hnr. cbn [length] in Hnr. rewrite Hpi in *. replace (S k) with (S (length rest')) by lia.
+    exact Hnr.
+  Qed.
+
+  Lemma after_outcome_sleeps (c : cfg) a (o : outcome) d e :
+    sleeps_after c a o d e -> after_outcome c a o = ([Disconnected; Reconnecting], ARetry d e).
+  Proof.
+    intros [-> [Hs [Hx Hp]]]. unfold after_outcome. rewrite Hs. cbn [negb]. rewrite Hx, Hp. reflexivity.
+  Qed.
+
+  (* what a returned future did is exactly a run of [reconnect_run] (any fuel that covers
+     its retries) *)
+  Lemma step_refines_run (c : cfg) (inps : nat -> rin) pf cp evs i x fuel :
+    let s := fold_left (step_st c inps pf cp) evs init in
+    res (reqs s i) = Some x ->
+    let l := log (reqs s i) in
+    (length l - 1 <= fuel)%nat ->
+    let r := reconnect_run c (w_inner (inps i) l) (w_ready c (inps i) l) fuel (w_t0 l) in
+    calls r = rev l /\ result r = Some x /\ writes r = writes_of i (wlog s).
+  Proof.
+    cbn zeta. set (s := fold_left (step_st c inps pf cp) evs init). intros Hres Hfuel.
+    pose proof (GI_fold c inps pf cp evs) as [HR _]. fold s in HR. specialize (HR i).
+    set (rq := reqs s i) in *. set (inp := inps i) in *.
+    destruct HR as [Hwf [Hwl Hph]]. rewrite Hres in Hwl.
+    assert (Hd : done_spec c inp (now s) rq x).
+    { destruct (ph rq).
+      - destruct Hph as [_ [_ Hr]]. congruence.
+      - destruct Hph as [_ [Hr _]]. congruence.
+      - destruct Hph as [Hr _]. congruence.
+      - destruct Hph as [Hr _]. congruence.
+      - destruct Hph as [x' [Hr Hd]]. rewrite Hres in Hr. injection Hr as <-. exact Hd. }
+    set (l := log rq) in *.
+    set (inner := w_inner inp l). set (ready := w_ready c inp l).
+    assert (Hrp : replays c inner ready (w_t0 l) l).
+    { apply (replays_of_wf c inp); [exact Hwf|reflexivity|]. intros k _. split; reflexivity. }
+    set (t0 := w_t0 l) in *. clearbody t0.
+    assert (Hstop : forall k, (S k < length l)%nat -> stop_at c inner ready k = false).
+    { intros k Hk. destruct (wf_retried c inp l k Hwf Hk) as [[e [d [Ho [Hs [Hx Hp]]]]] [Hrt Hnr]].
+      unfold stop_at. subst inner ready. unfold w_inner, w_ready. cbn [fst snd].
+      rewrite Ho, Hs, Hx, Hp, Hrt. cbn [negb orb].
+      destruct (r_ready inp (S k)); try reflexivity. contradiction. }
+    assert (Hinner : forall k, snd (inner k) = snd (r_inner inp k)) by reflexivity.
+    unfold reconnect_run.
+    assert (Hfin : forall cl rest ws,
+              l = cl :: rest ->
+              (forall f t, go c inner ready f (length rest) t =
+                 mkRun [mkCall (length rest) t (t + Z.max 0 (fst (inner (length rest))))
+                               (snd (inner (length rest)))] (Some x) ws) ->
+              repeat_dr (attempt rq) ++ tailw x = repeat_dr (length rest) ++ ws ->
+              let r := go c inner ready fuel 0 t0 in
+              calls r = rev l /\ result r = Some x /\ writes r = writes_of i (wlog s)).
+    { intros cl rest ws Hl Hend Hws. cbn zeta. rewrite Hl in Hrp.
+      rewrite (refine_end c inner ready t0 cl rest fuel (Some x) ws Hrp);
+        [|intros k Hk; apply Hstop; rewrite Hl; cbn [length]; lia
+         |rewrite Hl in Hfuel; cbn [length] in Hfuel; lia|exact Hend].
+      cbn [calls result writes]. rewrite Hl. repeat split; try reflexivity.
+      rewrite Hwl, Hws. reflexivity. }
+    unfold done_spec in Hd. destruct x as [v|[n e|e|e|e]].
+    - (* Ok *)
+      destruct Hd as [cl [rest [Hl [Hi Hv]]]]. fold l in Hl.
+      pose proof Hwf as Hwf'. rewrite Hl in Hwf'. cbn [wf_log] in Hwf'. destruct Hwf' as [Hci [Hco _]].
+      apply (Hfin cl rest [Connected] Hl).
+      + intros f t. apply go_return. rewrite Hinner, <- Hci, <- Hco, Hv. reflexivity.
+      + rewrite <- Hi, Hci. reflexivity.
+    - (* MaxAttemptsExceeded *)
+      destruct Hd as [cl [rest [m [Hl [Hi [Hv [Hs [Hn [Hm Hlt]]]]]]]]]. fold l in Hl.
+      pose proof Hwf as Hwf'. rewrite Hl in Hwf'. cbn [wf_log] in Hwf'. destruct Hwf' as [Hci [Hco _]].
+      apply (Hfin cl rest [Disconnected] Hl).
+      + intros f t. apply go_return. rewrite Hinner, <- Hci, <- Hco, Hv.
+        unfold after_outcome. rewrite Hs. cbn [negb]. unfold exceeded. rewrite Hm.
+        replace (m <? S (c_idx cl))%nat with true by (symmetry; apply Nat.ltb_lt; lia).
+        rewrite Hn. reflexivity.
+      + rewrite <- Hi, Hci. reflexivity.
+    - (* ConnectionFailed *)
+      destruct Hd as [cl [rest [Hl [Hi [Hv [Hs [Hx Hp]]]]]]]. fold l in Hl.
+      pose proof Hwf as Hwf'. rewrite Hl in Hwf'. cbn [wf_log] in Hwf'. destruct Hwf' as [Hci [Hco _]].
+      apply (Hfin cl rest [Disconnected] Hl).
+      + intros f t. apply go_return. rewrite Hinner, <- Hci, <- Hco, Hv.
+        unfold after_outcome. rewrite Hs. cbn [negb]. rewrite Hx, Hp. reflexivity.
+      + rewrite <- Hi, Hci. reflexivity.
+    - (* ConnectionFailedNoRetry *)
+      destruct Hd as [cl [rest [d [Hl [Hi [Hsl [Hrt _]]]]]]]. fold l in Hl.
+      pose proof Hwf as Hwf'. rewrite Hl in Hwf'. cbn [wf_log] in Hwf'. destruct Hwf' as [Hci [Hco _]].
+      apply (Hfin cl rest ([Disconnected; Reconnecting] ++ [Connected]) Hl).
+      + intros f t. apply (go_no_retry c inner ready f (length rest) t _ d e); [|exact Hrt].
+        rewrite Hinner, <- Hci, <- Hco. apply after_outcome_sleeps. exact Hsl.
+      + rewrite <- Hi, Hci, repeat_dr_S, <- app_assoc. reflexivity.
+    - (* ServiceError *)
+      destruct Hd as [[cl [rest [Hl [Hi [Hv Hs]]]]]|[prev [rest [Hl [Hi [[e0 [d Hsl]] [Hrt Hrd]]]]]]];
+        fold l in Hl;
+        pose proof Hwf as Hwf'; rewrite Hl in Hwf'; cbn [wf_log] in Hwf'; destruct Hwf' as [Hci [Hco _]].
+      + apply (Hfin cl rest [] Hl).
+        * intros f t. apply go_return. rewrite Hinner, <- Hci, <- Hco, Hv.
+          unfold after_outcome. rewrite Hs. reflexivity.
+        * rewrite <- Hi, Hci. reflexivity.
+      + apply (Hfin prev rest [Disconnected; Reconnecting] Hl).
+        * intros f t. apply (go_not_ready c inner ready f (length rest) t _ d e0 e); [|exact Hrt|].
+          -- rewrite Hinner, <- Hci, <- Hco. apply after_outcome_sleeps. exact Hsl.
+          -- subst ready. unfold w_ready. cbn [snd]. rewrite <- Hci, Hi, Hrd. reflexivity.
+        * rewrite <- Hi, Hci, repeat_dr_S. cbn [tailw]. rewrite app_nil_r. reflexivity.
   Qed.
 End ReconnectProofs.
 
@@ -1096,17 +1705,23 @@ End ReconnectProofs.
 Module Examples.
   Definition c1 (mx : option nat) (pol : nat -> option Z) (rt : bool) : cfg Zerr :=
     {| pred := Some (fun e => snd e); max_attempts := mx; policy := pol; retry_on_reconnect := rt |}.
-  Definition fixed5 (a : nat) : option Z := Some 5.
+  Definition fixed5 (a : nat) : option Z := Some (5 * MS).
   Definition fails_then_ok (n : nat) (k : nat) : Z * outcome Z Zerr :=
-    (3, if (k <? n)%nat then Fail (Z.of_nat k, true) else Ok 42).
+    (3 * MS, if (k <? n)%nat then Fail (Z.of_nat k, true) else Ok 42).
   Definition rd0 (k : nat) : Z * option Zerr := (0, None).
 
   Example run_ok :
-    let r := reconnect_run (c1 (Some 3%nat) fixed5 true) (fails_then_ok 2) rd0 10 100 in
-    map (fun cl => (c_start cl, c_end cl)) (calls r) = [(100, 103); (108, 111); (116, 119)] /\
+    let r := reconnect_run (c1 (Some 3%nat) fixed5 true) (fails_then_ok 2) rd0 10 (100 * MS) in
+    map (fun cl => (c_start cl / MS, c_end cl / MS)) (calls r) = [(100, 103); (108, 111); (116, 119)] /\
     result r = Some (inl 42) /\
     writes r = [Disconnected; Reconnecting; Disconnected; Reconnecting; Connected].
   Proof. vm_compute. repeat split; reflexivity. Qed.
+
+  (* a delay of 0.4 ms after a failure observed at 3 ms: the retry starts at 4 ms *)
+  Example run_submilli :
+    let r := reconnect_run (c1 None (fun _ => Some 400000) true) (fails_then_ok 1) rd0 10 0 in
+    map (fun cl => (c_start cl, c_end cl)) (calls r) = [(0, 3 * MS); (4 * MS, 7 * MS)].
+  Proof. vm_compute. reflexivity. Qed.
 
   Example run_exceeded :
     let r := reconnect_run (c1 (Some 1%nat) fixed5 true) (fails_then_ok 5) rd0 10 0 in
@@ -1141,24 +1756,64 @@ Module Examples.
     result r = None /\ length (calls r) = 8%nat.
   Proof. vm_compute. split; reflexivity. Qed.
 
+  (* the fuel and budget run_script uses satisfy the hypothesis of the progress theorem *)
+  Example script_fuel_enough : (4 * COOP + 3 < poll_fuel)%nat.
+  Proof. exact poll_fuel_enough. Qed.
+
   Definition inp (i : nat) : rin Z Zerr :=
     {| r_inner := fun k => (true, if (k <? 1)%nat then Fail (Z.of_nat (10 * i + k), true) else Ok 42);
        r_ready := fun _ => ROk |}.
   Definition evs : list ev :=
-    [CallEv 0; Advance 3; Complete 0; Poll 0; Advance 5; Poll 0; Advance 3; Complete 0].
-  Definition smid := fold_left (step_st (c1 (Some 2%nat) fixed5 true) inp 20) evs init.
-  Definition sfin := step_st (c1 (Some 2%nat) fixed5 true) inp 20 smid (Poll 0).
+    [CallEv 0; Advance (3 * MS); Complete 0; Poll 0; Advance (5 * MS); Poll 0; Advance (3 * MS); Complete 0].
+  Definition cc := c1 (Some 2%nat) fixed5 true.
+  Definition smid := fold_left (step_st cc inp poll_fuel COOP) evs init.
+  Definition sfin := step_st cc inp poll_fuel COOP smid (Poll 0).
 
   Example event_level :
     cs smid = Reconnecting /\ writer smid = Some 0%nat /\
-    started_calls (reqs smid 0) = [(0, 3); (8, -1)] /\
+    started_calls (reqs smid 0) = [(0, 3 * MS); (8 * MS, -1)] /\
     cs sfin = Connected /\ res (reqs sfin 0) = Some (inl 42) /\
-    started_calls (reqs sfin 0) = [(0, 3); (8, 11)].
+    started_calls (reqs sfin 0) = [(0, 3 * MS); (8 * MS, 11 * MS)].
   Proof. vm_compute. repeat split; reflexivity. Qed.
 
-  Example event_matches_run :
-    map (fun cl => (c_start cl, c_end cl))
-        (calls (reconnect_run (c1 (Some 2%nat) fixed5 true) (fun k => (3, snd (r_inner (inp 0) k))) rd0 5 0)) =
-    started_calls (reqs sfin 0).
-  Proof. vm_compute. reflexivity. Qed.
+  (* the hypotheses of the single-request theorem and of the refinement theorem are met *)
+  Example event_level_only0 : Forall only0 (evs ++ [Poll 0]).
+  Proof. repeat constructor. Qed.
+
+  Example event_refines :
+    let l := log (reqs sfin 0) in
+    let r := reconnect_run cc (w_inner (inp 0) l) (w_ready cc (inp 0) l) 1 (w_t0 l) in
+    calls r = rev l /\ result r = Some (inl 42) /\
+    writes r = [Disconnected; Reconnecting; Connected] /\
+    writes_of 0 (wlog sfin) = [Disconnected; Reconnecting; Connected].
+  Proof. vm_compute. repeat split; reflexivity. Qed.
+
+  (* the state clause needs "one request": with two requests sharing the layer's state,
+     request 1 fails reconnectably and sleeps, request 0 succeeds - the published state is
+     Connected while request 1 is still handling its connection failure *)
+  Definition inp2 (i : nat) : rin Z Zerr :=
+    {| r_inner := fun k => (false, if (i =? 1)%nat && (k =? 0)%nat then Fail (11, true) else Ok 1);
+       r_ready := fun _ => ROk |}.
+  Definition s_two := fold_left (step_st (c1 None (fun _ => Some (10 * MS)) true) inp2 poll_fuel COOP)
+                                [Poll 1; Poll 0] init.
+  Example two_requests_connected_while_handling :
+    handling (reqs s_two 1) /\ cs s_two = Connected /\ res (reqs s_two 0) = Some (inl 1).
+  Proof. vm_compute. repeat split; reflexivity. Qed.
+
+  (* the cooperative budget is reachable: zero delay, unlimited attempts, 200 immediate
+     failures; the first poll makes 129 inner calls, finds the budget exhausted at the 129th
+     sleep and wakes itself; the second poll goes on *)
+  Definition c0 : cfg Zerr :=
+    {| pred := None; max_attempts := None; policy := fun _ => Some 0; retry_on_reconnect := true |}.
+  Definition inp_fail (i : nat) : rin Z Zerr :=
+    {| r_inner := fun k => (false, if (k <? 200)%nat then Fail (Z.of_nat k, true) else Ok 7);
+       r_ready := fun _ => ROk |}.
+  Definition s1 := step c0 inp_fail poll_fuel COOP init (Poll 0).
+  Definition s2 := step c0 inp_fail poll_fuel COOP (fst s1) (Poll 0).
+
+  Example coop_exhausted :
+    o_res (snd s1) = Pending /\ o_self (snd s1) = true /\ woken (fst s1) 0 = true /\
+    length (log (reqs (fst s1) 0)) = 129%nat /\ cs (fst s1) = Reconnecting /\
+    o_res (snd s2) = Ready (inl 7) /\ length (log (reqs (fst s2) 0)) = 201%nat.
+  Proof. vm_compute. repeat split; reflexivity. Qed.
 End Examples.
